@@ -221,6 +221,17 @@ Proof. exact sdss2eq_src_ok. Qed.
 Theorem C09_source_formula_eq2sdss : forall ra dec, eq2sdss_xyz_src ra dec = Some (eq2sdss_xyz ra dec).
 Proof. exact eq2sdss_src_ok. Qed.
 
+(* the output stage (longitude and latitude extracted from x, y, z) translated from the source, with numpy's
+   arctan2 and float % instantiated by Model.atan2 and Model.Rmod, is the model's *)
+Theorem C09_source_output_stage_euler : forall r a b,
+  let v := euler_xyz r a b in
+  euler_out_src atan2 Rmod (r_psi r) (vx v) (vy v) (vz v) = Some (euler_R_gen true r a b).
+Proof. exact euler_out_src_ok. Qed.
+
+Theorem C09_source_output_stage_xyz2eq : forall v,
+  xyz2thetaphi_out_src atan2 Rmod (vx v) (vy v) (vz v) = Some (lon_of v, lat_of v).
+Proof. exact xyz2thetaphi_out_src_ok. Qed.
+
 (* ---------------------------------------------------------------- shiftlon / shiftra (exact rationals) *)
 Theorem C09_shiftlon_spec : forall lon shift wrap, lon_valid lon ->
   shiftlon_ok lon shift wrap (shiftlon lon shift wrap).
